@@ -170,6 +170,8 @@ Add Ring Cring : C_ring.
 
 Lemma cnormsq_zero : forall a, cnormsq a == 0 -> ceq a c0.
 Proof. intros [x y] H. cdestruct. split; nra. Qed.
+Lemma cnormsq_c0 : cnormsq c0 == 0.
+Proof. reflexivity. Qed.
 Lemma cnormsq_nonneg : forall a, 0 <= cnormsq a.
 Proof. intros [x y]. cdestruct. nra. Qed.
 Lemma cnormsq_pos : forall a, ~ ceq a c0 -> 0 < cnormsq a.
@@ -261,8 +263,9 @@ Proof.
   exists (sector_modulus m0 m1 u1), (sector_argument a0 a1 u2).
   destruct (real_interval_range m0 m1 u1 A1 A2) as (R1 & R2 & _).
   destruct (real_interval_range a0 a1 u2 B1 B2) as (I1 & I2 & _).
-  unfold sector_modulus, sector_argument, complex_sector. repeat split; try assumption.
-  rewrite cnormsq_scale, He. ring.
+  unfold sector_modulus, sector_argument, complex_sector.
+  split; [split; assumption|]. split; [split; assumption|]. split; [reflexivity|].
+  rewrite cnormsq_scale, He. unfold sector_modulus. ring.
 Qed.
 
 (* ------------------------------------------------------------------------------------------ *)
@@ -289,7 +292,7 @@ Definition raw_ok (r : rf_raw) : Prop :=
   0 <= r_a r < 1 /\ 0 <= r_p r < 1 /\ 0 <= r_b r < 1 /\ 0 <= r_c r < 1.
 
 Lemma rf_amp_range : forall u, 0 <= u < 1 -> 1 # 2 <= rf_amp u /\ rf_amp u < 1.
-Proof. intros u [H0 H1]. unfold rf_amp. split; lra. Qed.
+Proof. intros u [H0 H1]. unfold rf_amp. setoid_replace (u / 2) with (u * (1 # 2)) by field. split; lra. Qed.
 
 (* frequencies lie in [-pi, pi), phases in [0, 2 pi) (pi = the float np.pi) *)
 Lemma rf_freq_range : forall u, 0 <= u < 1 -> - pi_f <= rf_freq u /\ rf_freq u < pi_f.
@@ -300,7 +303,7 @@ Proof. intros u [H0 H1]. unfold rf_shift, pi_f. split; lra. Qed.
 Lemma rf_coeff_bound : forall expi cplx r, expi_ok expi -> raw_ok r ->
   (1 # 4) <= cnormsq (t_a (rf_coeff expi cplx r)) <= 1.
 Proof.
-  intros expi cplx r He (Ha & _). destruct (rf_amp_range _ Ha) as [A1 A2].
+  intros expi cplx r He (Ha & _). unfold expi_ok in He. destruct (rf_amp_range _ Ha) as [A1 A2].
   unfold rf_coeff. simpl. destruct cplx.
   - rewrite cnormsq_mul, He, cnormsq_cofQ. split; nra.
   - rewrite cnormsq_cofQ. split; nra.
@@ -321,9 +324,9 @@ Lemma rf_inner_bound : forall sinv ts xs, sin_ok sinv -> Forall term_ok ts ->
   cnormsq (rf_inner sinv ts xs) <= inject_Z (Z.of_nat (length ts)) * inject_Z (Z.of_nat (length ts)).
 Proof.
   intros sinv ts. induction ts as [|t ts IH]; intros xs Hs Ht.
-  - simpl. unfold cnormsq, c0. simpl. lra.
+  - simpl rf_inner. rewrite cnormsq_c0. simpl length. change (inject_Z (Z.of_nat 0)) with 0. lra.
   - inversion Ht as [|? ? Ht1 Ht2]; subst. destruct xs as [|x xs].
-    + simpl rf_inner. pose proof (qnat_nonneg (length (t :: ts))). unfold cnormsq, c0. simpl fst. simpl snd. nra.
+    + simpl rf_inner. rewrite cnormsq_c0. pose proof (qnat_nonneg (length (t :: ts))). nra.
     + simpl rf_inner. simpl length. rewrite qnat_succ.
       setoid_replace (inject_Z (Z.of_nat (length ts)) + 1) with (1 + inject_Z (Z.of_nat (length ts))) by ring.
       apply cnormsq_add_bound; [lra | apply qnat_nonneg | | apply IH; assumption].
@@ -336,7 +339,7 @@ Lemma csum_list_bound : forall (l : list C) b, 0 <= b -> Forall (fun z => cnorms
   cnormsq (csum_list l) <= (inject_Z (Z.of_nat (length l)) * b) * (inject_Z (Z.of_nat (length l)) * b).
 Proof.
   intros l b Hb. induction l as [|z l IH]; intro H.
-  - simpl. unfold cnormsq, c0. simpl. lra.
+  - simpl csum_list. rewrite cnormsq_c0. simpl length. change (inject_Z (Z.of_nat 0)) with 0. lra.
   - inversion H as [|? ? H1 H2]; subst. simpl csum_list. simpl length. rewrite qnat_succ.
     setoid_replace ((inject_Z (Z.of_nat (length l)) + 1) * b) with (b + inject_Z (Z.of_nat (length l)) * b) by ring.
     apply cnormsq_add_bound; [lra | | exact H1 | apply IH; exact H2].
@@ -366,8 +369,150 @@ Proof.
   assert (E : ceq (csub (cadd (cscale (amplitude / N) S) center) center) (cscale (amplitude / N) S)).
   { generalize (cscale (amplitude / N) S). intro z. cdestruct. split; ring. }
   rewrite E, cnormsq_scale.
-  assert (E2 : amplitude / N * (amplitude / N) * ((N * K) * (N * K)) == amplitude * K * (amplitude * K)) by (field; lra).
-  rewrite <- E2. apply Qmult_le_l' with (z := amplitude / N * (amplitude / N)) in HS.
-  - exact HS.
-  - assert (0 <= amplitude / N) by (apply div_nonneg; lra). nra.
+  assert (HA : 0 <= amplitude / N) by (apply div_nonneg; lra).
+  assert (E2 : (amplitude / N) * N == amplitude) by (field; lra).
+  set (a := amplitude / N) in *.
+  assert (H1 : a * a * cnormsq S <= a * a * ((N * K) * (N * K))).
+  { assert (H0 : 0 <= a * a) by nra. revert H0 HS. generalize (a * a) (cnormsq S) ((N * K) * (N * K)). intros; nra. }
+  assert (H2 : a * a * ((N * K) * (N * K)) == amplitude * K * (amplitude * K)) by (rewrite <- E2; ring).
+  lra.
+Qed.
+
+(* ---- arity, output dimension, realness ---- *)
+Lemma rf_eval_arity : forall sinv input_dim center amplitude num_terms f xs,
+  rf_eval sinv input_dim center amplitude num_terms f xs = None <-> length xs <> input_dim.
+Proof.
+  intros. unfold rf_eval. destruct (Nat.eqb (length xs) input_dim) eqn:E.
+  - apply Nat.eqb_eq in E. split; [discriminate | congruence].
+  - apply Nat.eqb_neq in E. split; auto.
+Qed.
+
+Lemma rf_eval_some : forall sinv input_dim center amplitude num_terms f xs ys,
+  rf_eval sinv input_dim center amplitude num_terms f xs = Some ys ->
+  length xs = input_dim /\ ys = map (fun rows => rf_component sinv center amplitude num_terms rows xs) f.
+Proof.
+  intros until ys. unfold rf_eval. destruct (Nat.eqb (length xs) input_dim) eqn:E; [|discriminate].
+  apply Nat.eqb_eq in E. intro H. inversion H. auto.
+Qed.
+
+Lemma creal_add : forall a b, creal a -> creal b -> creal (cadd a b).
+Proof. intros [x y] [z w]. unfold creal, cadd. simpl. intros. lra. Qed.
+Lemma creal_scale : forall q a, creal a -> creal (cscale q a).
+Proof. intros q [x y]. unfold creal, cscale. simpl. intros H. rewrite H. ring. Qed.
+Lemma creal_c0 : creal c0.
+Proof. reflexivity. Qed.
+
+Lemma rf_inner_real : forall sinv ts xs, Forall (fun t => creal (t_a t)) ts -> creal (rf_inner sinv ts xs).
+Proof.
+  intros sinv ts. induction ts as [|t ts IH]; intros xs H; [apply creal_c0|].
+  inversion H; subst. destruct xs; [apply creal_c0|]. simpl.
+  apply creal_add; [apply creal_scale; assumption | apply IH; assumption].
+Qed.
+
+Lemma csum_list_real : forall l, Forall creal l -> creal (csum_list l).
+Proof.
+  induction l as [|z l IH]; intro H; [apply creal_c0|]. inversion H; subst. simpl.
+  apply creal_add; auto.
+Qed.
+
+Lemma rf_component_real : forall sinv center amplitude num_terms rows xs, creal center ->
+  Forall (Forall (fun t => creal (t_a t))) rows ->
+  creal (rf_component sinv center amplitude num_terms rows xs).
+Proof.
+  intros. unfold rf_component. cbv zeta. apply creal_add; [|assumption]. apply creal_scale.
+  apply csum_list_real. apply Forall_forall. intros z Hz. apply in_map_iff in Hz.
+  destruct Hz as (ts & E & Hin). subst. apply rf_inner_real. rewrite Forall_forall in H0. auto.
+Qed.
+
+(* ---- the drawn coefficients ---- *)
+Definition raw3_ok (raw : list (list (list rf_raw))) : Prop := Forall (Forall (Forall raw_ok)) raw.
+
+Lemma rf_shape_ok_spec : forall (A : Type) o t i (raw : list (list (list A))),
+  rf_shape_ok o t i raw = true <->
+  length raw = o /\ Forall (fun rows => length rows = t /\ Forall (fun ts => length ts = i) rows) raw.
+Proof.
+  intros A o t i raw. unfold rf_shape_ok. rewrite andb_true_iff, Nat.eqb_eq, forallb_forall, Forall_forall.
+  split; intros [H1 H2]; (split; [exact H1|]); intros rows Hin; specialize (H2 rows Hin).
+  - rewrite andb_true_iff, Nat.eqb_eq, forallb_forall in H2. destruct H2 as [H2 H3]. split; [exact H2|].
+    apply Forall_forall. intros ts Hts. apply Nat.eqb_eq. auto.
+  - destruct H2 as [H2 H3]. rewrite andb_true_iff, Nat.eqb_eq, forallb_forall. split; [exact H2|].
+    intros ts Hts. apply Nat.eqb_eq. rewrite Forall_forall in H3. auto.
+Qed.
+
+(* the whole statement for one drawn function and one evaluation point *)
+Lemma rf_sample_sound : forall expi sinv cplx (input_dim output_dim num_terms : nat) center amplitude raw xs,
+  expi_ok expi -> sin_ok sinv -> 0 <= amplitude -> (0 < num_terms)%nat ->
+  rf_shape_ok output_dim num_terms input_dim raw = true -> raw3_ok raw ->
+  let f := rf_draw expi cplx raw in
+  (rf_eval sinv input_dim center amplitude (Z.of_nat num_terms) f xs = None <-> length xs <> input_dim) /\
+  forall ys, rf_eval sinv input_dim center amplitude (Z.of_nat num_terms) f xs = Some ys ->
+    length ys = output_dim /\
+    Forall (fun y => cnormsq (csub y center)
+                     <= (amplitude * inject_Z (Z.of_nat input_dim)) * (amplitude * inject_Z (Z.of_nat input_dim))) ys /\
+    (cplx = false -> creal center -> Forall creal ys).
+Proof.
+  intros expi sinv cplx input_dim output_dim num_terms center amplitude raw xs He Hs Ha Hn Hshape Hraw f.
+  split; [apply rf_eval_arity|].
+  intros ys Hys. apply rf_eval_some in Hys. destruct Hys as [Hlen ->].
+  apply rf_shape_ok_spec in Hshape. destruct Hshape as [Ho Hrows].
+  unfold f, rf_draw. rewrite !map_length. split; [exact Ho|]. split.
+  - apply Forall_forall. intros y Hy. apply in_map_iff in Hy. destruct Hy as (rows' & <- & Hin).
+    apply in_map_iff in Hin. destruct Hin as (rows & <- & Hin).
+    rewrite Forall_forall in Hrows. destruct (Hrows rows Hin) as [Lt Li].
+    unfold raw3_ok in Hraw. rewrite Forall_forall in Hraw. specialize (Hraw rows Hin).
+    apply rf_component_bound; try assumption.
+    + rewrite map_length. exact Lt.
+    + apply Forall_forall. intros ts' Hts'. apply in_map_iff in Hts'. destruct Hts' as (ts & <- & Hts).
+      rewrite Forall_forall in Li, Hraw. split; [rewrite map_length; auto|].
+      apply Forall_forall. intros t Ht. apply in_map_iff in Ht. destruct Ht as (r & <- & Hr).
+      unfold term_ok. specialize (Hraw ts Hts). rewrite Forall_forall in Hraw.
+      apply (rf_coeff_bound expi cplx r He (Hraw r Hr)).
+  - intros -> Hc. apply Forall_forall. intros y Hy. apply in_map_iff in Hy. destruct Hy as (rows' & <- & Hin).
+    apply rf_component_real; [exact Hc|].
+    apply in_map_iff in Hin. destruct Hin as (rows & <- & Hin).
+    apply Forall_forall. intros ts' Hts'. apply in_map_iff in Hts'. destruct Hts' as (ts & <- & Hts).
+    apply Forall_forall. intros t Ht. apply in_map_iff in Ht. destruct Ht as (r & <- & Hr). apply rf_coeff_real.
+Qed.
+
+(* unary functions: values stay within center +/- amplitude *)
+Lemma rf_unary_bound : forall expi sinv cplx (output_dim num_terms : nat) center amplitude raw xs ys,
+  expi_ok expi -> sin_ok sinv -> 0 <= amplitude -> (0 < num_terms)%nat ->
+  rf_shape_ok output_dim num_terms 1 raw = true -> raw3_ok raw ->
+  rf_eval sinv 1 center amplitude (Z.of_nat num_terms) (rf_draw expi cplx raw) xs = Some ys ->
+  Forall (fun y => cnormsq (csub y center) <= amplitude * amplitude) ys.
+Proof.
+  intros expi sinv cplx output_dim num_terms center amplitude raw xs ys He Hs Ha Hn Hshape Hraw Hys.
+  destruct (rf_sample_sound expi sinv cplx 1 output_dim num_terms center amplitude raw xs He Hs Ha Hn Hshape Hraw)
+    as [_ H]. destruct (H ys Hys) as (_ & B & _).
+  eapply Forall_impl; [|exact B]. intros y Hy. cbv beta in Hy.
+  change (inject_Z (Z.of_nat 1)) with 1 in Hy.
+  setoid_replace (amplitude * amplitude) with (amplitude * 1 * (amplitude * 1)) by ring. exact Hy.
+Qed.
+
+(* the full statement (values within center +/- amplitude for every input_dim) FAILS for input_dim = 2:
+   raw draws A = 0.5 (amplitude 0.75), B = 0.5 (frequency 0), C = 0.25 (phase np.pi/2); np.sin(np.pi/2) = 1.0
+   is the only oracle answer consulted; num_terms = 1, center = 0, amplitude = 1: f(x1, x2) = 1.5 *)
+Definition rf_witness_sin (t : Q) : Q := if Qeq_bool t (pi_f / 2) then 1 else 0.
+Definition rf_witness_raw : list (list (list rf_raw)) :=
+  [[[mkRaw (1#2) 0 (1#2) (1#4); mkRaw (1#2) 0 (1#2) (1#4)]]].
+
+Lemma rf_witness_sin_ok : sin_ok rf_witness_sin.
+Proof. intro t. unfold rf_witness_sin. destruct (Qeq_bool t (pi_f / 2)); split; lra. Qed.
+
+Lemma rf_witness_raw_ok : raw3_ok rf_witness_raw.
+Proof.
+  unfold raw3_ok, rf_witness_raw. repeat constructor; simpl; lra.
+Qed.
+
+Lemma rf_bound_refuted :
+  exists expi sinv cplx (input_dim output_dim num_terms : nat) center amplitude raw xs ys,
+    expi_ok expi /\ sin_ok sinv /\ 0 <= amplitude /\ (0 < num_terms)%nat /\
+    rf_shape_ok output_dim num_terms input_dim raw = true /\ raw3_ok raw /\
+    rf_eval sinv input_dim center amplitude (Z.of_nat num_terms) (rf_draw expi cplx raw) xs = Some ys /\
+    ~ Forall (fun y => cnormsq (csub y center) <= amplitude * amplitude) ys.
+Proof.
+  exists (fun _ => c1), rf_witness_sin, false, 2%nat, 1%nat, 1%nat, c0, 1, rf_witness_raw, [3; -7].
+  eexists. split; [intro; reflexivity|]. split; [exact rf_witness_sin_ok|]. split; [lra|]. split; [lia|].
+  split; [reflexivity|]. split; [exact rf_witness_raw_ok|]. split; [reflexivity|].
+  intro H. inversion H as [|? ? H1 _]; subst. vm_compute in H1. apply H1. reflexivity.
 Qed.
